@@ -57,6 +57,7 @@ type WorkerOut struct {
 }
 
 // Replay is the replay file format.
+// (Decisions is always written as a list, never null)
 type Replay struct {
 	Property  string   `json:"property"`
 	Harness   string   `json:"harness"`
